@@ -16,6 +16,7 @@ pub mod c16;
 pub mod c17;
 pub mod c18;
 pub mod c19;
+pub mod c20;
 
 use crate::core::Report;
 
@@ -39,6 +40,7 @@ pub fn dispatch(p: &str, rep: &mut Report) -> bool {
         "C17" => c17::run(rep),
         "C18" => c18::run(rep),
         "C19" => c19::run(rep),
+        "C20" => c20::run(rep),
         _ => return false,
     }
     true
